@@ -119,6 +119,12 @@ def mk_dist(spec):
         d = D.RandomDistribution(seed=spec[1])
         d.generate_points(spec[2])
         return d
+    if spec[0] == 'points':
+        # a Distribution object whose points the caller set himself
+        d = D.UniformDistribution()
+        d.x = np.array(spec[1], dtype=float)
+        d.y = np.array(spec[2], dtype=float)
+        return d
     if spec[0] == 'gq':
         d = D.GaussianQuadrature(is_symmetric=bool(spec[1]))
         d.generate_points(num_rings=spec[2])
@@ -539,10 +545,51 @@ def gen_client(ch, kind, meta):
             steps[3]['wis'] = [(wS if w == 'S' else wT)[i] for w, i in order]
         if ch.chance(0.5):
             steps[2], steps[3] = steps[3], steps[2]
+    elif kind == 'batch_trace':
+        # the same pupil points traced through Optic.trace (which, unlike
+        # trace_generic, finishes polarized intensities) alone and inside a
+        # larger caller-built distribution
+        n1 = ch.randint(1, 4)
+        n2 = ch.randint(1, 5)
+        pS = [[ch.rounded(ch.uniform(-0.9, 0.9), 3) for _ in range(n1)]
+              for _ in range(2)]
+        pT = [[ch.rounded(ch.uniform(-0.9, 0.9), 3) for _ in range(n2)]
+              for _ in range(2)]
+        order = ch.shuffle([('S', i) for i in range(n1)] +
+                           [('T', i) for i in range(n2)])
+        bx = [(pS if w == 'S' else pT)[0][i] for w, i in order]
+        by = [(pS if w == 'S' else pT)[1][i] for w, i in order]
+        idx = [order.index(('S', i)) for i in range(n1)]
+        Hy = ch.pick([0.0, 1.0, 0.7])
+        wi = ch.randint(0, 2)
+        steps = [{'c': 'trace', 'Hx': 0.0, 'Hy': Hy, 'wi': wi, 'n': None,
+                  'dist': ['points', pS[0], pS[1]], 'batch': 'S'},
+                 {'c': 'trace', 'Hx': 0.0, 'Hy': Hy, 'wi': wi, 'n': None,
+                  'dist': ['points', bx, by], 'batch': 'ST', 'idx': idx}]
+        if ch.chance(0.5):
+            steps.reverse()
+    elif kind == 'fft':
+        # PSF / MTF computations on the same grid with changing pupil
+        # sampling (a sampling check), on the same field and wavelength
+        grid = ch.pick([32, 48, 64], tag='grid')
+        ns = ch.shuffle([8, 16, 24])[:ch.randint(2, 3)]
+        fld = list(_fields(ch))
+        wi = ch.randint(0, 2)
+        for j, n in enumerate(ns):
+            if ch.chance(0.7):
+                steps.append({'c': 'new', 'cls': 'FFTPSF', 'slot': f'p{j}',
+                              'kw': {'field': fld, 'wi': wi, 'n': n,
+                                     'grid': grid}})
+                if ch.chance(0.5):
+                    steps.append({'c': 'method', 'slot': f'p{j}',
+                                  'name': 'strehl_ratio'})
+            else:
+                steps.append({'c': 'new', 'cls': 'FFTMTF', 'slot': f'p{j}',
+                              'kw': {'n': n, 'grid': grid}})
     elif kind == 'faulty':
         for _ in range(ch.randint(1, 3)):
             f = ch.pick(['len', 'dist', 'list', 'grid', 'name', 'surf',
-                         'field'], tag='fault')
+                         'field', 'dtype', 'dtype'], tag='fault')
             if f == 'len':
                 steps.append({'c': 'mk', 'slot': 'bad', 'args': {
                     'Hx': ['array', [0.0, 0.0, 0.0]],
@@ -562,6 +609,12 @@ def gen_client(ch, kind, meta):
                 steps.append({'c': 'new', 'cls': 'FFTPSF', 'slot': 'f',
                               'kw': {'field': [0, 1.0], 'wi': 0, 'n': 24,
                                      'grid': 8}, 'fault': f})
+            elif f == 'dtype':
+                steps.append({'c': 'new', 'slot': 'f', 'fault': f,
+                              'cls': ch.pick(['Distortion',
+                                              'GridDistortion']),
+                              'kw': {'type': 'no-such-distortion-type',
+                                     'n': 3}})
             elif f == 'name':
                 steps.append({'c': 'operand', 'type': 'real_y_intercept',
                               'input': {'surface_number': 1, 'Hx': 0.0,
@@ -582,7 +635,7 @@ def gen_client(ch, kind, meta):
 
 KINDS = [('trace', 3), ('tg', 3), ('paraxial', 3), ('aberr', 1.5),
          ('analysis', 4), ('operand', 2), ('repeat', 2), ('batch', 1.5),
-         ('faulty', 1.5)]
+         ('batch_trace', 1.2), ('fft', 1.2), ('faulty', 1.5)]
 
 
 def build_lens(ops):
@@ -717,7 +770,7 @@ def execute(prop, hist):
                     first[st['rep']] = obs
         # (2) batch independence
         for ci, cl in enumerate(clients):
-            if cl['kind'] != 'batch':
+            if cl['kind'] not in ('batch', 'batch_trace'):
                 continue
             oS = oST = None
             n1 = None
@@ -731,10 +784,16 @@ def execute(prop, hist):
             if oS and oST and 'rays' in oS and 'rays' in oST:
                 tol = batch_tol(lenses_ops[cl['lens'] % len(shared)])
                 stats['oracle_checks'] += 1
+                # the returned rays (final state, including the intensity a
+                # polarized trace assigns) as one more "surface"
+                def with_final(o_, q):
+                    qq = {'intensity': 'i'}.get(q, q)
+                    return np.array(list(o_['rec'][q]) + [o_['rays'][qq]],
+                                    dtype=float)
                 for q in REC:
                     try:
-                        a = np.array(oS['rec'][q], dtype=float)
-                        b = np.array(oST['rec'][q], dtype=float)[:, n1]
+                        a = with_final(oS, q)
+                        b = with_final(oST, q)[:, n1]
                     except Exception:
                         continue
                     if a.shape != b.shape:
@@ -747,7 +806,8 @@ def execute(prop, hist):
                         s, r = np.argwhere(bad)[0]
                         raise Violation(
                             'batch-dependence',
-                            f'C13/tg/batch-dependence/{q}',
+                            f'C13/{"trace" if cl["script"][-1]["c"] == "trace" else "tg"}'
+                            f'/batch-dependence/{q}',
                             f'ray {r} traced alone gives {q}={a[s, r]!r} on '
                             f'surface {s}, inside a larger batch '
                             f'{b[s, r]!r} (tolerance {tol})')
